@@ -3,6 +3,7 @@
 package c12
 
 import (
+	"bufio"
 	"bytes"
 	"fmt"
 	"io"
@@ -120,6 +121,12 @@ func expected(b []byte, off int, m string) (ok bool, num uint64, str []byte, con
 // chunkBuffer selects a *bytes.Buffer as the source (see runCall).
 const chunkBuffer = -100
 
+// chunkSeekAdvanced / chunkBufio: a seekable reader positioned behind a preamble / a small bufio.Reader.
+const (
+	chunkSeekAdvanced = -101
+	chunkBufio        = -102
+)
+
 type CallCase struct {
 	Input  vh.B   `json:"input"`
 	Method string `json:"method"`
@@ -148,6 +155,21 @@ func runCall(c CallCase) (outcome, int) {
 			backing[:cap(backing)][i] ^= 0x5A
 		}
 		return got, pos
+	}
+	if c.Chunk == chunkSeekAdvanced {
+		// a bytes.Reader that has already been read up to where this item begins
+		pre := []byte("0123456789abcdefghijklmnopqrstuvwxyz-preamble")
+		br := bytes.NewReader(append(append([]byte{}, pre...), c.Input...))
+		br.Seek(int64(len(pre)), io.SeekStart)
+		got := call(cbor.NewDecoder(br), c.Method)
+		return got, len(c.Input) - br.Len()
+	}
+	if c.Chunk == chunkBufio {
+		// a *bufio.Reader with the smallest buffer (16 octets): strings longer than the buffer
+		br := bytes.NewReader(c.Input)
+		bf := bufio.NewReaderSize(br, 16)
+		got := call(cbor.NewDecoder(bf), c.Method)
+		return got, len(c.Input) - br.Len() - bf.Buffered()
 	}
 	rd := &posReader{b: c.Input, chunk: c.Chunk}
 	if c.Chunk == -2 || c.Chunk == -3 { // plain reader that hands out its last bytes together with io.EOF (whole / 1-byte reads)
@@ -296,7 +318,7 @@ func TestExhaustiveHeads(t *testing.T) {
 			}
 			for _, in := range inputs {
 				for _, m := range methods {
-					for _, chunk := range []int{0, 1, -1, -2, -3, chunkBuffer} {
+					for _, chunk := range []int{0, 1, -1, -2, -3, chunkBuffer, chunkSeekAdvanced, chunkBufio} {
 						if (chunk == 1 || chunk == -3) && len(in) > 300 {
 							continue
 						}
@@ -485,6 +507,17 @@ var streamProp = vh.Define("C12", "stream", func(c StreamCase, r *vh.R) {
 			}
 		}
 		r.Class("source:bytes.Buffer")
+	} else if c.Chunk == chunkSeekAdvanced {
+		pre := []byte("0123456789abcdefghijklmnopqrstuvwxyz-preamble")
+		br := bytes.NewReader(append(append([]byte{}, pre...), b...))
+		br.Seek(int64(len(pre)), io.SeekStart)
+		src, pos = br, func() int { return len(b) - br.Len() }
+		r.Class("source:seekable-advanced")
+	} else if c.Chunk == chunkBufio {
+		br := bytes.NewReader(b)
+		bf := bufio.NewReaderSize(br, 16)
+		src, pos = bf, func() int { return len(b) - br.Len() - bf.Buffered() }
+		r.Class("source:bufio")
 	} else if c.Chunk == -1 {
 		br := bytes.NewReader(b)
 		src, pos = br, func() int { return len(b) - br.Len() }
@@ -628,7 +661,7 @@ func TestPropStream(t *testing.T) {
 		if rapid.IntRange(0, 3).Draw(t, "extra") == 0 {
 			c.Calls = append(c.Calls, rapid.SampledFrom(methods).Draw(t, "extracall"))
 		}
-		c.Chunk = rapid.SampledFrom([]int{0, 0, 1, 3, -1, -1, -2, -3, -5, chunkBuffer, chunkBuffer}).Draw(t, "chunk")
+		c.Chunk = rapid.SampledFrom([]int{0, 0, 1, 3, -1, -1, -2, -3, -5, chunkBuffer, chunkBuffer, chunkSeekAdvanced, chunkBufio, chunkBufio}).Draw(t, "chunk")
 		if rapid.IntRange(0, 3).Draw(t, "docut") == 0 {
 			c.Cut = rapid.IntRange(1, 12).Draw(t, "cut")
 		}
@@ -676,8 +709,8 @@ func (r *faultReader) Read(p []byte) (int, error) {
 
 type ResumeCase struct {
 	Pre      []StreamItem `json:"pre"`
-	Partial  StreamItem   `json:"partial"`  // head with a 1/2/4/8-byte argument
-	Keep     int          `json:"keep"`     // argument bytes delivered before the fault (< width), or -1: fault inside string content
+	Partial  StreamItem   `json:"partial"` // head with a 1/2/4/8-byte argument
+	Keep     int          `json:"keep"`    // argument bytes delivered before the fault (< width), or -1: fault inside string content
 	PartCall string       `json:"part_call"`
 	Post     []StreamItem `json:"post"`
 	Calls    []string     `json:"calls"` // for the Post items
